@@ -1101,7 +1101,8 @@ class ConcatScenario(BaseScenario):
             return "skipped"   # known finding: a second cross-workspace copy of a drillhole group raises (identifiers in use)
         group = w.group_ent(g)
         target = w.ws[dh]
-        new, outcome = self.call(w, lambda: group.copy(parent=target), "either" if self.prop == "C12" else "ok", what="copy_group")
+        # (a second copy into a workspace that already holds the holes' identifiers raises: C12's known finding, whichever check runs)
+        new, outcome = self.call(w, lambda: group.copy(parent=target), "either" if (self.prop == "C12" or (again and dh != w.groups[g]["h"])) else "ok", what="copy_group")
         del group
         if outcome.startswith("refused") and self.prop == "C12":
             raise Violation("C12", "copy_raises", f"copying a drillhole group to {'another' if dh != w.groups[g]['h'] else 'the same'} workspace raised "
